@@ -653,7 +653,24 @@ impl<'a, 'b> RtGen<'a, 'b> {
                 // array / tuple indexing
                 let inner = self.ty(depth + 1);
                 self.label("array-index");
-                let text = match self.c.pick(6) {
+                let text = match self.c.pick(7) {
+                    6 => {
+                        // an index at / past the end of the tuple: nothing is known about it
+                        self.label("tuple-index-out-of-range");
+                        let text = match self.c.pick(4) {
+                            0 => format!("[{}, boolean][2]", paren_if_fn(&inner.text)),
+                            1 => format!("[{}][1]", paren_if_fn(&inner.text)),
+                            2 => "[][0]".to_string(),
+                            _ => format!("[{}, boolean][7]", paren_if_fn(&inner.text)),
+                        };
+                        return RtType {
+                            text,
+                            ctors: None,
+                            loose: None,
+                            inhabitants: vec![],
+                            depth: inner.depth + 1,
+                        };
+                    }
                     0 => format!("({})[][number]", inner.text),
                     // the array type itself in parentheses
                     5 => format!("(({})[])[number]", inner.text),
